@@ -56,6 +56,7 @@ type harness struct {
 	pCrash      int
 	pIpamErr    int
 	pBlockEmpty int
+	pEagerClaim int
 	pDisabledAtCreate int
 	skew        bool
 	xlag        bool
@@ -172,6 +173,7 @@ func (h *harness) configure() {
 		}
 	}
 	h.pBlockEmpty = r.Src.Intn(900, "p_block_empty")
+	h.pEagerClaim = r.Src.Intn(700, "p_eager_claim") // nodes waiting for addresses claim a block as soon as a pool turns allocatable
 	h.pDisabledAtCreate = r.Src.Intn(200, "p_disabled_at_create")
 	h.skew = r.Src.Chance(500, "clock_skew")
 	r.Cfg("clock_skew", h.skew)
@@ -506,7 +508,11 @@ func (h *harness) actBlockAdd() {
 	if len(cands) == 0 {
 		return
 	}
-	p := cands[r.Src.Intn(len(cands), "block_pool")]
+	h.claimBlock(cands[r.Src.Intn(len(cands), "block_pool")])
+}
+
+func (h *harness) claimBlock(p *v3.IPPool) {
+	r := h.r
 	pfx := h.meta[string(p.UID)].pfx
 	bb := 26
 	if pfx.Addr().Is6() {
